@@ -10,7 +10,7 @@ def _alarm(signum, frame):
     raise Hang()
 
 
-def watched(fn, seconds=30):
+def watched(fn, seconds=12):
     """Run fn() under a watchdog.  Returns ('ok', value) | ('exc', ExcName, msg) | ('hang',)."""
     old = signal.signal(signal.SIGALRM, _alarm)
     signal.alarm(seconds)
@@ -54,11 +54,14 @@ def _work(run_one, scen, seed, tf):
         torch.manual_seed(sd)
         numpy.random.seed(sd)
         random.seed(sd)
+        import time as _time
+        _t0 = _time.time()
         try:
             t = run_one(s)
         except Exception as e:
             t = {"driver_error": type(e).__name__ + ": " + str(e)[:300], "tb": traceback.format_exc()[-1500:], "events": []}
         t["tid"] = s["tid"]
+        t["ms"] = int((_time.time() - _t0) * 1000)
         t.setdefault("scenario", s)
         out.append(t)
     json.dump(out, open(tf, "w"))
